@@ -62,6 +62,17 @@ def norm_cond(c):
     return c
 
 
+def conjuncts(conds):
+    """The conditions of a path with every `a and b` split into a, b (each of them holds on the path)."""
+    out = []
+    for c in conds:
+        if isinstance(c, App) and c.op == "and":
+            out += conjuncts(c.args)
+        else:
+            out.append(c)
+    return out
+
+
 def norm_guards(guards):
     """[(condition, polarity)] with negations folded into the polarity and membership tests in one spelling (norm_cond)."""
     out = []
@@ -351,8 +362,8 @@ def enum_facts(ctx, rid):
     rej = [o for o in outs if o.kind == "raise"]
     ok = False
     for o in rej:
-        for c in o.conds:
-            if isinstance(c, App) and c.op == "not in" and c.args[0] == Sym("param:value") \
+        for c, pol in norm_guards([(c_, True) for c_ in conjuncts(o.conds)]):
+            if isinstance(c, App) and c.op == "in" and not pol and c.args[0] == Sym("param:value") \
                     and "attr:name" in _attr_ops(c.args[1]) and "attr:children" in _attr_ops(c.args[1]) \
                     and "attr:id" not in _attr_ops(c.args[1]):
                 ok = _exc_name(o) == "ValueError"
